@@ -65,13 +65,12 @@ theorem parseIcon_render (base : Str) (i : IconSpec) : parseIcon base (renderIco
 /-! ### state variables -/
 
 theorem allowed_texts (l : List Str) :
-    ((l.map (leaf .service .allowedValue)).filter (Xml.isNamed .service .allowedValue)).filterMap (·.text)
-      = l.filter (fun s => !s.isEmpty) := by
+    ((l.map (leaf .service .allowedValue)).filter (Xml.isNamed .service .allowedValue)).map (·.text)
+      = l.map (fun s => if s.isEmpty then none else some s) := by
   induction l with
   | nil => rfl
   | cons s r ih =>
-    simp only [List.map_cons, List.filter_cons, isNamed_leaf, beq_self_eq_true, Bool.and_self, if_true,
-      List.filterMap_cons]
+    simp only [List.map_cons, List.filter_cons, isNamed_leaf, beq_self_eq_true, Bool.and_self, if_true]
     rw [ih]
     unfold leaf
     by_cases h : s.isEmpty <;> simp [Xml.text, h]
@@ -85,7 +84,8 @@ structure VarFields (v : VarSpec) : Prop where
   range : ((renderVar v).find .service .allowedValueRange).map
       (fun r => (r.findtext .service .minimum, r.findtext .service .maximum)) = v.range.map (fun r => (r.1, r.2.1))
   allowed : ((renderVar v).find .service .allowedValueList).map
-      (fun l => (l.findall .service .allowedValue).filterMap (·.text)) = v.allowed.map (fun l => l.filter (fun s => !s.isEmpty))
+      (fun l => (l.findall .service .allowedValue).map (·.text))
+        = v.allowed.map (fun l => l.map (fun s => if s.isEmpty then none else some s))
 
 theorem renderVar_fields (v : VarSpec) : VarFields v := by
   obtain ⟨n, t, sa, se, df, rg, al⟩ := v
@@ -122,7 +122,7 @@ theorem createVar_render (nonStrict : Bool) (v : VarSpec) :
   rw [hf.se, hf.seElem, hf.dataType, hf.default, hf.name, hf.range, hf.allowed]
 
 theorem varOf_ok (nonStrict : Bool) (sa se dt df nm : Option Str) (rg : Option (Option Str × Option Str))
-    (al : Option (List Str)) (m : VarM F) (h : varOf fo tb nonStrict sa se dt df nm rg al = .ok m) :
+    (al : Option (List (Option Str))) (m : VarM F) (h : varOf fo tb nonStrict sa se dt df nm rg al = .ok m) :
     m.name = stripWs (nm.getD []) := by
   unfold varOf at h
   cases dt with
@@ -133,7 +133,8 @@ theorem varOf_ok (nonStrict : Bool) (sa se dt df nm : Option Str) (rg : Option (
     | none => simp [hr] at h
     | some row =>
       simp only [hr] at h
-      cases hs : mkSchema fo tb row (!nonStrict) { range := rg, allowed := al, default := df } with
+      cases hs : mkSchema fo tb row (!nonStrict)
+          { range := rg, allowed := al.map (allowedTexts (row.ty == .str)), default := df } with
       | error e => simp [hs] at h
       | ok sc =>
         simp only [hs, Except.ok.injEq] at h
